@@ -105,7 +105,9 @@ def load_known(prop):
 def check(prop, tier, seed):
     t0 = time.time()
     P = importlib.import_module(f"props.{prop}")
-    timeout_ms = 10000 if tier == "quick" else 120000
+    # final z3 attempt per obligation (after the short multi-seed attempts): generous even in the quick tier, so that a busy
+    # machine does not turn a provable obligation into "undecided" (it only costs time on obligations that are NOT proved)
+    timeout_ms = int(os.environ.get("VERIF_TIMEOUT_MS", "30000" if tier == "quick" else "120000"))
     tasks = P.tasks(tier)
     nproc = min(len(tasks), int(os.environ.get("VERIF_JOBS", "16"))) or 1
     ctx = mp.get_context("fork")
